@@ -42,8 +42,11 @@ class Button:
         else:
             pressed = bool(self._state_provider())
 
-        if pressed and not self._was_pressed and self._on_click is not None:
+        rising = pressed and not self._was_pressed
+        # the edge is consumed before the handler runs: a handler that polls this
+        # button again (or raises) must not see the same edge a second time
+        self._was_pressed = pressed
+        if rising and self._on_click is not None:
             self._on_click()
 
-        self._was_pressed = pressed
         return 1 if pressed else 0
